@@ -147,6 +147,7 @@ func ReadFromWebVTT(i io.Reader) (o *Subtitles, err error) {
 		// Fetch line
 		line = strings.TrimSpace(scanner.Text())
 		lineNum++
+		verifEmit("vtt.line", i, lineNum, len(o.Items), blockName, len(sa.WebVTTTags), len(comments))
 		if !utf8.ValidString(line) {
 			err = fmt.Errorf("astisub: line %d is not valid utf-8", lineNum)
 			return
